@@ -438,6 +438,16 @@ impl Check for C20 {
             for m in members.iter_mut().take(n - 1) {
                 strip_padding(m);
             }
+            // one member in three compounds is itself a compound of two packets
+            if wl.chance(1, 3) {
+                let k = wl.below(n);
+                let mut inner = vec![gen_packet(&mut wl, &gcfg), gen_packet(&mut wl, &gcfg)];
+                strip_padding(&mut inner[0]);
+                if k != n - 1 {
+                    strip_padding(&mut inner[1]);
+                }
+                members[k] = Spec::Compound { members: inner };
+            }
             Spec::Compound { members }
         } else {
             gen_packet(&mut wl, &gcfg)
